@@ -145,7 +145,7 @@ theorem step_panics_next_before_fix (s : RunState) :
 theorem mstructSet_panics_before_fix (s : RunState) :
     mstructAllocWith true usizeMax s = .panic := by
   unfold mstructAllocWith hostPanic
-  have : decide (usizeMax > isizeMax) = true := by decide
+  have : decide (usizeMax * 16 > isizeMax) = true := by decide
   simp [this]
 
 /-! ## non-vacuity and sanity -/
